@@ -81,6 +81,8 @@ func corpus(o *hc.Out, dir string) {
 		{"new.ltsv.duplicate_label", tbl([]string{"a", "a"}, []cell{cI(1), cI(2)}), with(option.LTSV, strip), false},
 		{"new.json.duplicate_label", tbl([]string{"a", "a"}, []cell{cI(1), cI(2)}), with(option.JSON, strip), false},
 		{"new.jsonl.duplicate_label", tbl([]string{"a", "a"}, []cell{cI(1), cI(2)}), with(option.JSONL, strip), false},
+		{"F73.json.json_text_in_string", tbl(ab, []cell{cS("[1, 2]"), cS("{\"k\" : 1.50}")}), with(option.JSON, strip), true},
+		{"F73.jsonl.json_text_in_string", tbl(ab, []cell{cS("[1, 2]"), cI(2)}), with(option.JSONL, strip), true},
 		{"F16c.csv.partial_output", tbl(ab, []cell{cS("abc"), cS("é")}), with(option.CSV, sjis), true},
 		{"F16c.tsv.partial_output", tbl(ab, []cell{cS("abc"), cS("é")}), with(option.TSV, sjis), true},
 		{"F16c.ltsv.partial_output", tbl(ab, []cell{cS("abc"), cS("é")}), with(option.LTSV, sjis), true},
@@ -113,6 +115,10 @@ func corpus(o *hc.Out, dir string) {
 		}
 		o.Count("corpus:" + w.id + ":" + out)
 	}
+	// ---- refused COMMIT, repair, COMMIT: the committed file is that of a run without the refused attempt ----
+	for _, hk := range historyKinds {
+		historyRun(o, dir, hk, 600, 590, 20, text.LF, "history."+hk.name)
+	}
 	// ---- the dialect clause ----
 	dt := func() *table {
 		return tbl([]string{"k", "v"}, []cell{cS("r0"), cS("a")}, []cell{cS("r1"), cS("b")}, []cell{cS("r2"), cS("c")})
@@ -136,6 +142,39 @@ func corpus(o *hc.Out, dir string) {
 			}
 		}
 	}
+	// every format x every attribute FileInfo.ExportOptions carries, the updating session set to the
+	// OPPOSITE of the file's dialect: delimiter, positions, encoding, line break, header, enclose-all,
+	// JSON escape, pretty print
+	sessionOpposite = true
+	for _, w := range []struct {
+		id string
+		d  opts
+	}{
+		{"csv.delimiter_semicolon", with(option.CSV, func(op *opts) { op.delim = ';' })},
+		{"csv.enclose_all", with(option.CSV, func(op *opts) { op.encloseAll = true })},
+		{"csv.not_enclose_all", with(option.CSV, nil)},
+		{"csv.crlf_utf8m", with(option.CSV, func(op *opts) { op.lb = text.CRLF; op.enc = text.UTF8M })},
+		{"csv.no_header_sjis", with(option.CSV, func(op *opts) { op.withoutHeader = true; op.enc = text.SJIS })},
+		{"tsv.enclose_all", with(option.TSV, func(op *opts) { op.encloseAll = true })},
+		{"tsv.not_enclose_all_crlf", with(option.TSV, func(op *opts) { op.lb = text.CRLF })},
+		{"tsv.no_header", with(option.TSV, func(op *opts) { op.withoutHeader = true })},
+		{"ltsv.crlf_sjis", with(option.LTSV, func(op *opts) { op.lb = text.CRLF; op.enc = text.SJIS })},
+		{"ltsv.lf_utf8m", with(option.LTSV, func(op *opts) { op.enc = text.UTF8M })},
+		{"fixed.positions", with(option.FIXED, func(op *opts) { op.positions = []int{4, 9} })},
+		{"fixed.positions_no_header_crlf", with(option.FIXED, func(op *opts) { op.positions = []int{5, 8}; op.withoutHeader = true; op.lb = text.CRLF })},
+		{"json.escape_hex", with(option.JSON, func(op *opts) { op.jsonEscape = txjson.HexDigits })},
+		{"json.escape_hexall_crlf", with(option.JSON, func(op *opts) { op.jsonEscape = txjson.AllWithHexDigits; op.lb = text.CRLF })},
+		{"json.escape_backslash_compact", with(option.JSON, nil)},
+		{"jsonl.escape_hex_crlf", with(option.JSONL, func(op *opts) { op.jsonEscape = txjson.HexDigits; op.lb = text.CRLF })},
+		{"jsonl.escape_backslash", with(option.JSONL, nil)},
+	} {
+		t := tbl([]string{"k", "v"}, []cell{cS("r0"), cS("a\"b")}, []cell{cS("r1"), cS("b")}, []cell{cS("r2"), cS("")}, []cell{cS("r3"), cS("q/r")})
+		if w.d.format == option.LTSV {
+			t.rows[0][1] = cS("ab")
+		}
+		diaRun(o, dir, t, w.d, true, w.d.enc, "dialect.opposite_session."+w.id)
+	}
+	sessionOpposite = false
 	// known (F25): an updated UTF-16 file gets its ending line break as raw bytes
 	diaRun(o, dir, dt(), with(option.CSV, func(op *opts) { op.enc = text.UTF16BEM }), true, text.AUTO, "F25.csv.dialect_ending_line_break_not_transcoded")
 	diaRun(o, dir, dt(), with(option.TSV, func(op *opts) { op.enc = text.UTF16LEM }), true, text.AUTO, "F25.tsv.dialect_ending_line_break_not_transcoded")
